@@ -127,6 +127,18 @@ func generate(rnd *rand.Rand, thorough bool) []*Prog {
 			for _, s := range overflowPairs {
 				mk("single", s[0], 0, acc(op, "p", 0, s[1], val()))
 			}
+			// static offset + access width at the powers of two where a constant changes its encoding (2^31: the largest
+			// value a sign-extended 32-bit immediate cannot hold; 2^15, 2^7 likewise for narrower encodings), with bases on
+			// both sides of 2^31
+			for _, pw := range []uint64{1 << 31, 1 << 15, 1 << 7, 1 << 32} {
+				for _, d := range []int64{-1, 0, 1} {
+					if off := int64(pw) - int64(w) + d; off >= 0 && off <= 0xffffffff {
+						for _, base := range []uint32{0, 4, 0x7ffffff0, 0x80000000, 0x80000004, 0xfffffff0} {
+							mk("single", base, 0, acc(op, "p", 0, uint32(off), val()))
+						}
+					}
+				}
+			}
 			// seeded random effective addresses near the boundaries, random splits
 			nr := 6
 			if thorough {
